@@ -275,6 +275,16 @@ impl SignatureConverter<'_> {
             std::mem::swap(&mut predicates, &mut where_clause.predicates);
 
             for predicate in predicates.into_iter() {
+                // The relaxed bounds (`?Sized`) of a parameter that is now one of the trait's
+                // are written where the trait declares it
+                let predicate = if keeps_generics {
+                    predicate
+                } else {
+                    match crate::analyze_generics::without_relaxed_bounds(&predicate) {
+                        Some(predicate) => predicate,
+                        None => continue,
+                    }
+                };
                 match &predicate {
                     syn::WherePredicate::Type(pred) => {
                         if let Some(deps_ident) = &deps_ident {
